@@ -168,10 +168,10 @@ def run_case(case, sched):
     simset.CTX.iters = simset.CTX.permuted = 0
     nX, nY, nZ = len(X), len(Y), len(Z)
     sc = _scale(X, Y, Z)
-    bt = 1e-12 * sc                                        # bottleneck slack
+    bt = 1e-12 * sc + 1e-300                               # bottleneck slack (floor: subnormal inputs)
 
     def wt(*ds):                                           # Wasserstein slack
-        return 2e-7 * max(2, sum(len(d) for d in ds)) * _scale(*ds)
+        return 2e-7 * max(2, sum(len(d) for d in ds)) * _scale(*ds) + 1e-300      # floor: subnormal inputs
 
     def fail(law, kind, discr, msg):
         raise Violation(law, kind, discr, msg)
